@@ -623,6 +623,28 @@ def rule_imp5(ctx: Ctx) -> RuleResult:
     rr.ob(f.relpath, f.qualname, norm(ups[0])[:70] if ups else "names request", "names requested from one module by different "
           "fields are united (typing: List from one field, Optional from another)", DISCHARGED if okc else VIOLATED,
           "united with the existing entry and stored" if okc else whyc, iff.lineno)
+    # an import statement is emitted as the one line it was formatted as: nothing re-flows, cuts or wraps its text
+    for js in walk_no_nested(f.node):
+        if isinstance(js, ast.JoinedStr) and js.values and isinstance(js.values[0], ast.Constant) and \
+                str(js.values[0].value).lstrip().startswith(("from ", "import ")):
+            rr.instances += 1
+            bad = None
+            cur, par = js, mod.parents.get(js)
+            while par is not None and not isinstance(par, ast.stmt):
+                if isinstance(par, ast.Call) and cur in par.args and not (
+                        isinstance(par.func, ast.Attribute) and par.func.attr in ("join", "append", "extend", "add", "insert") or
+                        norm(par.func) in ("list", "tuple", "sorted", "chain", "itertools.chain")):
+                    bad = par
+                    break
+                if isinstance(par, ast.Subscript) and par.value is cur:
+                    bad = par
+                    break
+                cur, par = par, mod.parents.get(par)
+            rr.ob(f.relpath, f.qualname, norm(js)[:60], "an import statement is one logical line, exactly as formatted",
+                  VIOLATED if bad is not None else DISCHARGED,
+                  f"`{norm(bad.func)[:30] if isinstance(bad, ast.Call) else 'a slice'}` re-shapes the statement text: a long `from ... import a, b, "
+                  f"c` is broken over lines without parentheses - a SyntaxError in the generated module" if bad is not None else
+                  "emitted as formatted", js.lineno)
     # output: both collections are rendered
     rr.instances += 1
     rets = [n for n in walk_no_nested(f.node) if isinstance(n, ast.Return) and n.value is not None]
